@@ -150,6 +150,9 @@ func (x *Xlat) loopInvs(st *State, fr *Frame, lc *loopCtx, n ast.Node, phase str
 	}
 	env := x.newSpecEnvFrame(st, fr, n.Pos())
 	for i, inv := range lc.spec.Invs {
+		if !inv.inView(x.view) {
+			continue
+		}
 		g := env.evalBool(inv.Expr)
 		if assume {
 			st.assume(g)
